@@ -33,7 +33,7 @@ Definition c_fixed_thr  : f64 := of_bits flin_fixed_thr_bits.    (* 1e-9 *)
 Definition c_min_close  : f64 := of_bits flin_min_close_bits.    (* 1e-4 *)
 Definition c_ne_fixed   : f64 := of_bits flin_ne_fixed_bits.     (* 1e-12 *)
 Definition c_ne_eq      : f64 := of_bits flin_ne_eq_bits.        (* 1e-12 *)
-Definition c_excl_delta : f64 := of_bits excl_delta_bits.        (* 1e-4 *)
+Definition c_excl_delta : f64 := of_bits excl_delta_bits.        (* 1e-4: exclusion_delta of an integer variable *)
 
 (* bounds of variable v as f64 (`l as f64` for integer variables) *)
 Definition lb_f (s : fstore) (v : nat) : f64 := as_f (var_min (fget s v)).
@@ -128,7 +128,33 @@ Fixpoint others_unbounded (vs : list nat) (s : fstore) (i j : nat) : bool :=
          end
   end.
 
-Definition flin_eq_step (unb : bool) (cs : list f64) (vs : list nat) (k : f64) (i : nat) (coeff : f64) (v : nat) (c : fctx) : option fctx :=
+(* integer_bound_slack (linear.rs, repair "a float linear equality gives integer variables the slack of its float terms"):
+   over the OTHER positions j: steps += |c_j| * step_j for a float variable; magnitude += |c_j| * max(|l_j|, |u_j|), starting
+   from |k|; result steps + (8 * f64::EPSILON) * magnitude = steps + 2^-49 * magnitude *)
+Definition c_eps8 : f64 := of_bits 0x3ce0000000000000.   (* 8.0 * f64::EPSILON = 2^-49 *)
+Fixpoint slack_loop (cs : list f64) (vs : list nat) (s : fstore) (i j : nat) (steps magnitude : f64) : f64 * f64 :=
+  match cs, vs with
+  | cj :: cs', vj :: vs' =>
+    if Nat.eqb j i then slack_loop cs' vs' s i (S j) steps magnitude
+    else
+      let a := fabs cj in
+      let steps' := match fget s vj with VF iv => fadd steps (fmul a (istep iv)) | VI _ => steps end in
+      slack_loop cs' vs' s i (S j) steps' (fadd magnitude (fmul a (fmaxr (fabs (lb_f s vj)) (fabs (ub_f s vj)))))
+  | _, _ => (steps, magnitude)
+  end.
+Definition integer_bound_slack (cs : list f64) (vs : list nat) (s : fstore) (i : nat) (k : f64) : f64 :=
+  let '(steps, magnitude) := slack_loop cs vs s i 0 c_zero (fabs k) in
+  fadd steps (fmul c_eps8 magnitude).
+(* the widening applied to the bounds computed for an INTEGER variable *)
+Definition widen_for_int (cs : list f64) (vs : list nat) (s : fstore) (k : f64) (i : nat) (coeff : f64) (v : nat) (b : f64 * f64) : f64 * f64 :=
+  match fget s v with
+  | VI _ =>
+    let sl := fdiv (integer_bound_slack cs vs s i k) (fabs coeff) in
+    if fis_finite sl then (fsub (fst b) sl, fadd (snd b) sl) else b
+  | VF _ => b
+  end.
+(* flin_eq_step_prefix: the code before that repair (no widening), kept for floatlineq_mixed_prefix_refuted *)
+Definition flin_eq_step_gen (widen : bool) (unb : bool) (cs : list f64) (vs : list nat) (k : f64) (i : nat) (coeff : f64) (v : nat) (c : fctx) : option fctx :=
   if flt (fabs coeff) c_zero_coeff then Some c
   else
     let s := fst c in
@@ -142,6 +168,7 @@ Definition flin_eq_step (unb : bool) (cs : list f64) (vs : list nat) (k : f64) (
       if fgt coeff c_zero then (fdiv target_min coeff, fdiv target_max coeff)
       else (fdiv target_max coeff, fdiv target_min coeff) in
     let '(new_min, new_max) := if fgt new_min new_max then (new_max, new_min) else (new_min, new_max) in
+    let '(new_min, new_max) := if widen then widen_for_int cs vs s k i coeff v (new_min, new_max) else (new_min, new_max) in
     let current_min := lb_f s v in
     let current_max := ub_f s v in
     let new_max := if flt new_max current_min && flt (fsub current_min new_max) c_clamp_tol then current_min else new_max in
@@ -155,6 +182,10 @@ Definition flin_eq_step (unb : bool) (cs : list f64) (vs : list nat) (k : f64) (
       | Some c1 => xset_max v (VlF new_max) c1
       end.
 
+Definition flin_eq_step := flin_eq_step_gen true.
+Definition flin_eq_step_prefix := flin_eq_step_gen false.
+Definition prune_flin_eq_prefix (cs : list f64) (vs : list nat) (k : f64) (c : fctx) : option fctx :=
+  flin_loop (flin_eq_step_prefix false cs vs k) cs vs 0 c.
 Definition prune_flin_eq_gen (unb : bool) (cs : list f64) (vs : list nat) (k : f64) (c : fctx) : option fctx :=
   flin_loop (flin_eq_step unb cs vs k) cs vs 0 c.
 Definition prune_flin_eq := prune_flin_eq_gen false.
@@ -162,10 +193,13 @@ Definition mk_flin_eq cs vs k : fprop := mkfprop (prune_flin_eq cs vs k) vs.
 
 (* ---------------------------------------------------------------- FloatLinNe *)
 (* exclude_value (linear.rs:1201-1240) *)
-Definition val_bump (b : fval) (up : bool) : fval :=
+(* exclusion_delta: one step of a float variable (a fixed 1e-4 before the repair "disequalities are decided at the leaves of the
+   search"; it emptied every float domain narrower than that), 1e-4 for an integer variable *)
+Definition excl_delta (x : fvar) : f64 := match x with VF i => istep i | VI _ => c_excl_delta end.
+Definition val_bump (x : fvar) (b : fval) (up : bool) : fval :=
   match b with
   | VlI z => VlI (if up then z + 1 else z - 1)
-  | VlF f => VlF (if up then fadd f c_excl_delta else fsub f c_excl_delta)
+  | VlF f => VlF (if up then fadd f (excl_delta x) else fsub f (excl_delta x))
   end.
 Definition exclude_value (v : nat) (forbidden : fval) (c : fctx) : option fctx :=
   let x := fget (fst c) v in
@@ -173,8 +207,8 @@ Definition exclude_value (v : nat) (forbidden : fval) (c : fctx) : option fctx :
   let cmax := var_max x in
   if val_lt forbidden cmin || val_gt forbidden cmax then Some c
   else if val_eq cmin cmax && val_eq cmin forbidden then None
-  else if val_eq cmin forbidden then xset_min v (val_bump forbidden true) c
-  else if val_eq cmax forbidden then xset_max v (val_bump forbidden false) c
+  else if val_eq cmin forbidden then xset_min v (val_bump x forbidden true) c
+  else if val_eq cmax forbidden then xset_max v (val_bump x forbidden false) c
   else Some c.
 
 (* is variable v "fixed" in the sense of FloatLinNe / compute_fixed_sum_float: |l - u| < 1e-12 for floats,
@@ -200,7 +234,9 @@ Fixpoint ne_scan_loop (cs : list f64) (vs : list nat) (s : fstore) (i : nat) (un
   | _, _ => NeScan unfixed fixed_sum
   end.
 
-Definition prune_flin_ne (cs : list f64) (vs : list nat) (k : f64) (c : fctx) : option fctx :=
+(* FloatLinNe::prune / prune_float_lin_ne BEFORE the repair "disequalities are decided at the leaves of the search": only the
+   scan below, whose notion of fixed (|max - min| < 1e-12) no interval the search has finished with satisfies *)
+Definition prune_flin_ne_prefix (cs : list f64) (vs : list nat) (k : f64) (c : fctx) : option fctx :=
   match ne_scan_loop cs vs (fst c) 0 None c_zero with
   | NeTwo => Some c
   | NeScan None fixed_sum =>
@@ -211,6 +247,21 @@ Definition prune_flin_ne (cs : list f64) (vs : list nat) (k : f64) (c : fctx) : 
     if flt (fabs coeff) c_zero_coeff then
       (if flt (fabs (fsub fixed_sum k)) c_ne_eq then None else Some c)
     else exclude_value v (VlF (fdiv (fsub k fixed_sum) coeff)) c
+  end.
+(* assigned_sum_float (linear.rs): Some (sum of coeff * reported value) once every variable is assigned in the SEARCH's
+   sense (Var::is_assigned: singleton integer domain, float interval at most one step wide); the reported value is the minimum *)
+Fixpoint assigned_sum (cs : list f64) (vs : list nat) (s : fstore) (acc : f64) : option f64 :=
+  match cs, vs with
+  | coeff :: cs', v :: vs' =>
+    if var_assigned (fget s v) then assigned_sum cs' vs' s (fadd acc (fmul coeff (as_f (var_min (fget s v))))) else None
+  | _, _ => Some acc
+  end.
+(* FloatLinNe::prune = prune_float_lin_ne after the repair: at a leaf of the search the constraint is decided on the values a
+   solution would report (|sum - k| < 1e-12 fails); otherwise the former scan *)
+Definition prune_flin_ne (cs : list f64) (vs : list nat) (k : f64) (c : fctx) : option fctx :=
+  match assigned_sum cs vs (fst c) c_zero with
+  | Some sum => if flt (fabs (fsub sum k)) c_ne_eq then None else Some c
+  | None => prune_flin_ne_prefix cs vs k c
   end.
 Definition mk_flin_ne cs vs k : fprop := mkfprop (prune_flin_ne cs vs k) vs.
 
